@@ -416,6 +416,11 @@ func TestSenderWorld(t *testing.T) {
 	if !on {
 		d.Ask("cfg insertfirst 1")
 	}
+	// the member the translator reads off the source (Spine.Generated.Sender.requestRemembersBeforeWrite) must be the
+	// member the probe finds on the running code
+	if static := d.Ask("member"); (static == "1") == on {
+		r.Mismatch(wit, fmt.Sprintf("probed: request remembered after the write = %v (%s)", on, det), "source says: remembered before the write = "+static, "family member: static fact vs dynamic probe")
+	}
 	if ops := h.ReplayOps("sender-world"); ops != nil {
 		runSenderWorld(r, d, ops, base)
 		return
